@@ -72,10 +72,34 @@ Families == <<
   [f |-> "ornot",   pre |-> <<>>,     core |-> <<X, LB, IntT(<<48>>), RB>>, post |-> <<OrT, NotT, NotT, X, LB, IntT(<<48>>), RB>>],
   [f |-> "orparen", pre |-> <<>>,     core |-> <<X, LB, IntT(<<48>>), RB>>, post |-> <<OrT, LP, X, LB, IntT(<<48>>), RB, RP>>],
   [f |-> "orlist",  pre |-> <<>>,     core |-> <<X, LB, IntT(<<48>>), RB>>, post |-> <<OrT, LB, X, RB, LB, IntT(<<48>>), RB, LB, IntT(<<48>>), RB>>] >>
+\* nesting families that need a fixed context around the repetition
+Wrapped == <<
+  \* shadowing must end with the inner let, however deep the nesting: [1, 0]
+  [f |-> "letshadow", head |-> <<LetT, VarT(<<36,118>>), AssignT, NumLit(<<48>>), InT, LB>>, pre |-> <<LetT, VarT(<<36,118>>), AssignT, NumLit(<<49>>), InT>>,
+   core |-> <<VarT(<<36,118>>)>>, post |-> <<>>, tail |-> <<Comma, VarT(<<36,118>>), RB>>],
+  \* a chain of bindings each defined from the one outside it
+  [f |-> "letchain", head |-> <<LetT, VarT(<<36,111>>), AssignT, X, LB, IntT(<<48>>), RB, InT, LB>>, pre |-> <<LetT, VarT(<<36,111>>), AssignT, VarT(<<36,111>>), InT>>,
+   core |-> <<VarT(<<36,111>>)>>, post |-> <<>>, tail |-> <<Comma, VarT(<<36,111>>), Comma, X, LB, IntT(<<49>>), RB, RB>>],
+  \* a binding that exists only inside must not be visible to the sibling: undefined-variable
+  [f |-> "letleak", head |-> <<LB>>, pre |-> <<LetT, VarT(<<36,105>>), AssignT, X, InT>>,
+   core |-> <<VarT(<<36,105>>), LB, IntT(<<48>>), RB>>, post |-> <<>>, tail |-> <<Comma, VarT(<<36,105>>), RB>>] >>
+WText(fm, n) == fm.head \o Rep(fm.pre, n) \o fm.core \o Rep(fm.post, n) \o fm.tail
 FamText(fm, n) == Rep(fm.pre, n) \o fm.core \o Rep(fm.post, n)
 \* families whose meaning does not depend on the depth (for n >= 1)
 Stable == {"paren", "not", "pipe", "neg", "or", "addneg", "ornot", "orparen", "orlist"}
 FlatFam == {"or", "addneg", "ornot", "orparen", "orlist", "pipe", "index", "flatten"}
+
+\* families whose value is the repetition count (as text: head rep^n tail)
+CountFams == <<
+  [f |-> "rawesc",  head |-> <<108,101,110,103,116,104,40,39>>, rep |-> <<92,39>>, tail |-> <<39,41>>, plus |-> 0],
+  [f |-> "rawbs",   head |-> <<108,101,110,103,116,104,40,39>>, rep |-> <<92,92>>, tail |-> <<39,41>>, plus |-> 0],
+  [f |-> "jsonesc", head |-> <<108,101,110,103,116,104,40,96,34>>, rep |-> <<92,110>>, tail |-> <<34,96,41>>, plus |-> 0],
+  [f |-> "jsonu",   head |-> <<108,101,110,103,116,104,40,96,34>>, rep |-> <<92,117,48,48,101,57>>, tail |-> <<34,96,41>>, plus |-> 0],
+  [f |-> "qidesc",  head |-> <<108,101,110,103,116,104,40,107,101,121,115,40,123,34>>, rep |-> <<92,116>>, tail |-> <<34,58,32,96,49,96,125,41,91,48,93,41>>, plus |-> 0],
+  [f |-> "rawlen",  head |-> <<108,101,110,103,116,104,40,39>>, rep |-> <<233>>, tail |-> <<39,41>>, plus |-> 0],
+  [f |-> "mslist",  head |-> <<108,101,110,103,116,104,40,91>>, rep |-> <<120,44>>, tail |-> <<120,93,41>>, plus |-> 1],
+  [f |-> "jsonarr", head |-> <<108,101,110,103,116,104,40,96,91>>, rep |-> <<49,44>>, tail |-> <<49,93,96,41>>, plus |-> 1],
+  [f |-> "zipargs", head |-> <<108,101,110,103,116,104,40,122,105,112,40>>, rep |-> <<120,44>>, tail |-> <<120,41,91,48,93,41>>, plus |-> 1] >>
 
 \* deep DOCUMENTS: [[[ ... 1 ... ]]] nested d levels; expressions whose outcome
 \* does not depend on d (checked for d = 2..6 by DepthLemma) and is a scalar
@@ -99,11 +123,27 @@ Check == idx > 0 =>
                              pre |-> Render(Families[i].pre), core |-> Render(Families[i].core), post |-> Render(Families[i].post),
                              adm |-> Admissible(FamText(Families[i], 3), Doc),
                              stable |-> Families[i].f \in Stable, flat |-> Families[i].f \in FlatFam] : i \in 1..Len(Families) }]
+      wscale == [p |-> Prop, kind |-> "scale", doc |-> Doc,
+                 multi |-> { [family |-> Wrapped[i].f, head |-> Render(Wrapped[i].head), tail |-> Render(Wrapped[i].tail),
+                              pre |-> Render(Wrapped[i].pre) \o <<32>>, core |-> Render(Wrapped[i].core), post |-> Render(Wrapped[i].post),
+                              adm |-> Admissible(WText(Wrapped[i], 3), Doc), stable |-> TRUE, flat |-> FALSE] : i \in 1..Len(Wrapped) }]
+      \* repetition COUNTS at the boundaries of 8- and 16-bit counters; the
+      \* expected value is a function of the count (checked for small counts by CountLemma)
+      counts == <<255, 256, 257, 65535, 65536, 65537>>
+      count == [p |-> Prop, kind |-> "count", doc |-> Doc,
+                multi |-> { [family |-> CountFams[i].f, head |-> CountFams[i].head, rep |-> CountFams[i].rep, tail |-> CountFams[i].tail,
+                             counts |-> [j \in 1..Len(counts) |-> [n |-> counts[j], adm |-> {JInt(counts[j] + CountFams[i].plus)}]]] : i \in 1..Len(CountFams) }]
       docscale == [p |-> Prop, kind |-> "docscale",
                    multi |-> { [expr |-> Render(DocExprs[i]), adm |-> Admissible(DocExprs[i], Nest(4))] : i \in 1..Len(DocExprs) }]
   IN /\ Emit => PrintT("CASE " \o ToJson(case))
      /\ (Emit /\ bucket = 1) => PrintT("CASE " \o ToJson(scale))
      /\ (Emit /\ bucket = 1) => PrintT("CASE " \o ToJson(docscale))
+     /\ (Emit /\ bucket = 1) => PrintT("CASE " \o ToJson(wscale))
+     /\ (Emit /\ bucket = 1) => PrintT("CASE " \o ToJson(count))
+     /\ Named(bucket # 1 \/ \A i \in 1..Len(Wrapped) : \A n \in 1..5 :
+                 Admissible(WText(Wrapped[i], n), Doc) = Admissible(WText(Wrapped[i], 3), Doc), "WrappedNestLemma")
+     /\ Named(bucket # 1 \/ \A i \in 1..Len(CountFams) : \A n \in 0..4 :
+                 AdmissibleText(CountFams[i].head \o Rep(CountFams[i].rep, n) \o CountFams[i].tail, Doc) = {JInt(n + CountFams[i].plus)}, "CountLemma")
      /\ Named(bucket # 1 \/ \A i \in 1..Len(DocExprs) : \A d \in 3..6 :
                  Admissible(DocExprs[i], Nest(d)) = Admissible(DocExprs[i], Nest(4)), "DepthLemma")
      \* magnitude independence in the specification: once beyond every length
